@@ -128,6 +128,12 @@ def run_query(arr, q):
             return ["ok", [_intf(v) for v in r]]
         if k == "strategy":
             return ["ok", "na"]
+        if k == "tfr":
+            r = arr.termfreqs(tok_name(q[1]), min_posn=q[2], max_posn=q[3])
+            return ["ok", [_intf(v) for v in r]]
+        if k == "phraser":
+            r = arr.termfreqs([tok_name(t) for t in q[1]], min_posn=q[2], max_posn=q[3])
+            return ["ok", [_intf(v) for v in r]]
         if k == "lens":
             return ["ok", [_intf(v) for v in arr.doclengths()]]
         if k == "n":
@@ -159,7 +165,11 @@ def impl_index_queries(case):
 # model / spec side
 # ---------------------------------------------------------------------------------------------
 def _mq(q):
-    return ["total"] if q[0] == "avg" else list(q)
+    if q[0] == "avg":
+        return ["total"]
+    if q[0] in ("tfr", "phraser"):
+        return [q[0], q[1], "none" if q[2] is None else ["some", q[2]], "none" if q[3] is None else ["some", q[3]]]
+    return list(q)
 
 
 def docs_sx(docs):
